@@ -9,7 +9,7 @@ class C20(TreeCheck):
     prop = "C20"
     profile = False
     rule_text = (
-        "programs from g_life: 1-3 lifecycles (plain / reusable / nested x clean shutdown waited, non-waited then joined, context manager, del / killed / "
+        "programs from g_life: 1-3 lifecycles (plain / reusable / nested x clean shutdown waited, non-waited then joined, context manager, del / killed / never submitted to (ended by shutdown, with, del or replacement) / broken and dropped without shutdown() / "
         "broken by a crash and shut down / timed-out workers / resized) run once (warm-up: tracker processes start here), census, then N in {2,5,20} more "
         "times, census; the four censuses (descriptors by kind, threads by name, children incl. zombies by class, /dev/shm entries) must be exactly equal. "
         "Plus jitter (Z) variants. Non-trivial = both censuses were taken; distinct = (lifecycle names, N, mode)."
@@ -19,7 +19,7 @@ class C20(TreeCheck):
 
     def bases(self, tier, rng):
         n = 48 if tier == "quick" else 500
-        return [dict(zip(("program", "meta"), programs.g_life(rng)), config={}, timeouts={"hard_s": 300}) for _ in range(n)]
+        return [dict(zip(("program", "meta"), programs.g_life(rng, force_how={1: "unused", 4: "broken_dropped", 7: "unused", 9: "nowait"}.get(i % 10))), config={}, timeouts={"hard_s": 300}) for i in range(n)]
 
     def derive(self, base, F, rng, tier):
         if rng.random() < 0.25:
